@@ -309,9 +309,14 @@ pub struct RunResult {
 
 /// run the hooked binary on `source` with the scripted stdin; returns [program, hook events.., stdout]
 pub fn run_cli(bin: &str, dir: &str, n: usize, rendered: &Rendered, stdin: &[u8], interp: bool, timeout_ms: u64) -> Vec<Value> {
+    run_cli_bytes(bin, dir, n, rendered, rendered.source.as_bytes(), stdin, interp, timeout_ms)
+}
+
+/// as run_cli, with the source file given as raw bytes (it need not be text)
+pub fn run_cli_bytes(bin: &str, dir: &str, n: usize, rendered: &Rendered, source: &[u8], stdin: &[u8], interp: bool, timeout_ms: u64) -> Vec<Value> {
     let src = format!("{}/p{}.s", dir, n);
     let trc = format!("{}/p{}.trace", dir, n);
-    std::fs::write(&src, rendered.source.as_bytes()).unwrap();
+    std::fs::write(&src, source).unwrap();
     let _ = std::fs::remove_file(&trc);
     let mut cmd = Command::new(bin);
     if interp {
